@@ -73,3 +73,65 @@ Theorem C17_descending : forall c f sc, idx_dom f sc ->
   StronglySorted (fun a b => compare (doc_get f b) (doc_get f a) <> Gt) (docs_by_idx c f true sc).
 Proof. exact docs_by_idx_sorted_rev. Qed.
 Print Assumptions C17_descending.
+
+(* ---- against the MEANING of a range (Spec/RangeSpec.v: a nil bound is a bound only when it is inclusive, i.e. produced by Eq/GtEq/LtEq nil), not only against the scan set in_range ---- *)
+From Clover Require Import RangeSpec RangeMeaningProofs.
+Theorem C17_empty_sound_meaning : forall m r v,
+  regime m v = true -> regime m (r_start r) = true -> regime m (r_end r) = true ->
+  c17_range r = true ->
+  range_is_empty r = true -> range_denotes r v = false.
+Proof. exact empty_sound_c17. Qed.
+Print Assumptions C17_empty_sound_meaning.
+
+Theorem C17_empty_sound_all_but_unbounded : forall m r v,
+  regime m v = true -> regime m (r_start r) = true -> regime m (r_end r) = true ->
+  range_unbounded r = false ->
+  range_is_empty r = true -> range_denotes r v = false.
+Proof. exact empty_sound_bounded_somewhere. Qed.
+Print Assumptions C17_empty_sound_all_but_unbounded.
+
+Theorem C17_empty_full_reading_refuted : exists m r v,
+  regime m v = true /\ regime m (r_start r) = true /\ regime m (r_end r) = true /\
+  range_is_empty r = true /\ range_denotes r v = true.
+Proof. exact empty_sound_full_refuted. Qed.
+Print Assumptions C17_empty_full_reading_refuted.
+
+Theorem C17_meaning_within_scan : forall r v, range_denotes r v = true -> in_range r v = true.
+Proof. exact denotes_in_range. Qed.
+Print Assumptions C17_meaning_within_scan.
+
+Theorem C17_scan_is_meaning : forall m r v,
+  regime m v = true -> regime m (r_start r) = true -> regime m (r_end r) = true ->
+  c17_range r = true -> range_is_empty r = false -> in_range r v = range_denotes r v.
+Proof. exact in_range_denotes_c17. Qed.
+Print Assumptions C17_scan_is_meaning.
+
+Theorem C17_scan_is_meaning_needs_dom_refuted : exists m r v,
+  regime m v = true /\ regime m (r_start r) = true /\ regime m (r_end r) = true /\
+  c17_range r = false /\ range_is_empty r = false /\
+  in_range r v = true /\ range_denotes r v = false.
+Proof. exact in_range_denotes_refuted. Qed.
+Print Assumptions C17_scan_is_meaning_needs_dom_refuted.
+
+Theorem C17_scan_exact_meaning :
+  forall m db c sc f B (g : obj -> B -> B * bool) (flt : option ncrit) r reverse (b : B) s,
+  wf_db db -> assoc c db = Some sc -> In f (sc_idx sc) -> idx_dom f sc ->
+  key_dom (r_start r) = true -> key_dom (r_end r) = true ->
+  c17_range r = true ->
+  (forall id d, In (id, d) (sc_docs sc) -> regime m (doc_get f d) = true) ->
+  regime m (r_start r) = true -> regime m (r_end r) = true ->
+  R db (view s) -> fault s = None ->
+  runs_to (idx_iterate_range (on_index_id c flt (pure_cons g)) c f r reverse b) s
+    (fold_pure g (filter (sat_opt flt)
+       (filter (fun d => range_denotes r (doc_get f d)) (docs_by_idx c f reverse sc))) b).
+Proof. exact scan_exact_c17. Qed.
+Print Assumptions C17_scan_exact_meaning.
+
+Theorem C17_intersect_sound_meaning : forall m r1 r2 v,
+  regime m v = true ->
+  regime m (r_start r1) = true -> regime m (r_end r1) = true ->
+  regime m (r_start r2) = true -> regime m (r_end r2) = true ->
+  range_denotes r1 v = true -> range_denotes r2 v = true ->
+  in_range (range_intersect r1 r2) v = true.
+Proof. exact intersect_sound_denotes. Qed.
+Print Assumptions C17_intersect_sound_meaning.
